@@ -18,5 +18,7 @@ finally:
   subprocess.run(["git", "-C", "/repo", "worktree", "remove", "--force", wt])
 lines = [l for l in r.stdout.splitlines() if any(k in l for k in ("VIOLATION", "KNOWN", "MACHINERY", "tier=", "signature"))]
 print("\n".join(lines[:8])); print("exit=%d" % r.returncode)
-if r.returncode == 2: print(r.stdout[-1500:])
+if r.returncode == 2:
+  print(r.stdout[-1500:])
+  open("/tmp/trydiff-%s-%s.log" % (pid, os.path.basename(os.path.dirname(patch))), "w").write(r.stdout)
 sys.exit(r.returncode)
